@@ -48,8 +48,15 @@ def run(ctx):
         nroots = rng.choice([1, 2, 3]) if dim >= 6 else 1
         exact = numpy.linalg.eigvalsh(H)
         desc = {"kind": kind, "dim": dim, "nroots": nroots, "case": case, "seed": ctx.seed}
+        # every third real case hands over its own guess vectors: random, neither normalised nor orthogonal
+        own_guess = None
+        if case % 3 == 1 and not numpy.iscomplexobj(H):
+            own_guess = [nr.randn(dim, 1) * rng.choice([0.01, 1.0, 30.0]) for _ in range(2 * nroots)]
+            own_guess[1] = own_guess[1] + 0.9 * own_guess[0]
+            desc["own_guess_vectors"] = True
         try:
-            w, v = davidson.davidsonliu(H, nroots, epsilon=1e-8)
+            w, v = davidson.davidsonliu(H, nroots, guess_vecs=own_guess, epsilon=1e-8) if own_guess is not None else \
+                davidson.davidsonliu(H, nroots, epsilon=1e-8)
             oc = "returned"
         except davidson.ConvergenceError:
             oc = "ConvergenceError"
